@@ -37,6 +37,7 @@ type progClass struct {
 	Extra  map[string]string // files next to F
 	Kind   string            // file | missing | dir
 	Reject bool              // the library is expected to reject it (checked at start)
+	Mixed  bool              // the library's verdict differs per target (no class-level expectation)
 }
 
 var programs = []progClass{
@@ -47,11 +48,13 @@ var programs = []progClass{
 	{Name: "syntax-error", Kind: "file", Main: "x := (1 +\nprint(x)\n", Reject: true},
 	{Name: "type-error", Kind: "file", Main: "var x int = \"s\"\nprint(x)\n", Reject: true},
 	{Name: "conversion-error", Kind: "file", Main: "b := \"a\" < \"b\"\nprint(b)\n", Reject: true},
+	// accepted by the Bash converter, rejected by the Batch converter: a failing target next to a succeeding one
+	{Name: "one-target-error", Kind: "file", Main: "x := 1\nswitch x {\ndefault:\n\tbreak\n}\nprint(x)\n", Mixed: true},
 	{Name: "input-missing", Kind: "missing", Reject: true},
 	{Name: "input-is-dir", Kind: "dir", Reject: true},
 }
 
-var fileNames = []string{"p.tsh", "a.b.c.tsh", "noext", "with blank.tsh", "UPPER.TSH"}
+var fileNames = []string{"p.tsh", "a.b.c.tsh", "noext", "with blank.tsh", "UPPER.TSH", "tests.tsh", "hash.tsh", "dot..tsh"}
 
 // baseOf is "F minus its last extension", written independently of tsh.go.
 func baseOf(f string) string {
@@ -797,7 +800,7 @@ func Run() int {
 			}
 			for _, tg := range []drive.Target{drive.Bash, drive.Batch} {
 				tr := libTranspile(filepath.Join(d, "p.tsh"), tg)
-				if tr.OK() == p.Reject {
+				if !p.Mixed && tr.OK() == p.Reject {
 					harnessError("program class %s: library accepted=%v for %s, the class expects rejected=%v (%s)", p.Name, tr.OK(), tg, p.Reject, tr.Err)
 				}
 			}
